@@ -81,11 +81,13 @@ def default_value(p):
   """The default OBJECT of param p = [name, kind, dflt, ...] (dflt != None)."""
   if p[2] == 'o':
     return stubmod.DEFAULT_OBJ     # an opaque object: a copy of it is NOT it
+  if p[2] == 'l':
+    return stubmod.DEFAULT_LIST    # a mutable container as the default
   return NUMERIC_DEFAULTS[p[2]] if p[2] in NUMERIC_DEFAULTS else default_token(p[0])
 
 
 def default_source(p):
-  return 'DEFAULT_OBJ' if p[2] == 'o' else repr(default_value(p))
+  return {'o': 'DEFAULT_OBJ', 'l': 'DEFAULT_LIST'}.get(p[2]) or repr(default_value(p))
 
 
 def sig_source(params, first=None):
